@@ -160,6 +160,45 @@ def ob_inside_hold(upol, budget_s=120):
     return symx.explore(run, budget_s=budget_s)
 
 
+def ob_inside_two_holds(upol, budget_s=200):
+    """two joined holds open at once on columns 0 and 1 (symbolic head/tail beats) and a plain note on one of those columns:
+    it splits a hold iff it lies strictly inside THAT column's hold -> raise / keep / drop as the option says"""
+    import z3
+    symx, mods = _setup()
+    G = mods["simfile.notes.group"]; N = mods["simfile.notes"]; T = mods["simfile.timing"]
+
+    def run():
+        h0, t0, h1, t1, nb = (z3.Real(x) for x in ("h0", "t0", "h1", "t1", "nb"))
+        symx.CTL.assume(h0 >= 0, h1 >= h0, t0 > h0, t1 > h1, nb > h1)   # the grouped sequence is position sorted
+        ncol = symx.choose("ncol", 2)
+        hb, tb = (h0, t0) if ncol == 0 else (h1, t1)
+        symx.CTL.assume(nb != hb, nb != tb)            # one note per position
+        symx.require_feasible()
+        grouped = [[G.NoteWithTail(beat=T.Beat(symx.FracShim(h0)), column=0, note_type=N.NoteType.HOLD_HEAD, tail_beat=T.Beat(symx.FracShim(t0)))],
+                   [G.NoteWithTail(beat=T.Beat(symx.FracShim(h1)), column=1, note_type=N.NoteType.ROLL_HEAD, tail_beat=T.Beat(symx.FracShim(t1)))],
+                   [N.Note(beat=T.Beat(symx.FracShim(nb)), column=ncol, note_type=N.NoteType.TAP)]]
+        inside = symx.CTL.branch(z3.And(nb > hb, nb < tb))
+        try:
+            back = list(G.ungroup_notes(grouped, orphaned_notes=G.OrphanedNotes[upol]))
+            raised = False
+        except G.OrphanedNoteException:
+            raised = True
+        if inside and upol == "RAISE_EXCEPTION":
+            return raised, ("two holds: inside/raise", ncol)
+        if raised:
+            return False, ("raised although the note is not inside its column's hold", ncol)
+        taps = [x for x in back if x.note_type is N.NoteType.TAP]
+        want_tap = not (inside and upol == "DROP_ORPHAN")
+        if len(taps) != (1 if want_tap else 0) or len(back) != 4 + (1 if want_tap else 0):
+            return False, ("two holds: tap kept/dropped wrongly", inside, upol, len(back))
+        conds = []
+        for a, b in zip(back, back[1:]):
+            ab, bb = symx.zr(symx.term_of(a.beat)), symx.zr(symx.term_of(b.beat))
+            conds.append(z3.Or(ab < bb, z3.And(ab == bb, z3.BoolVal(a.column <= b.column))))
+        return z3.And(*conds), ("two holds", inside, upol)
+    return symx.explore(run, budget_s=budget_s)
+
+
 def ob_many_holds(k, upol, budget_s=200):
     """hand-built grouped sequence with k holds open at once (columns 0..k-1, symbolic tail beats in any order) followed by a
     plain note on another column: the ungrouped stream is position sorted and contains exactly heads, tails and the note"""
@@ -223,6 +262,9 @@ def obligations(tier):
         obs.append(dict(name=f"many_holds k={k}", func="ob_many_holds", args=(k, "RAISE_EXCEPTION"), budget_s=b,
                         bounds=f"{k} NoteWithTail on distinct columns with symbolic head/tail beats (every release order), then a tap on a free column"))
     for up in nc.POL:
+        obs.append(dict(name=f"inside_two_holds ungroup={up}", func="ob_inside_two_holds", args=(up,), budget_s=b,
+                        bounds="two NoteWithTail on columns 0 and 1 (symbolic beats, any overlap) + a tap on either column (symbolic beat)"))
+    for up in nc.POL:
         obs.append(dict(name=f"inside_hold ungroup={up}", func="ob_inside_hold", args=(up,), budget_s=b,
                         bounds="one NoteWithTail (symbolic head/tail beats, keysound) + one plain note (symbolic beat, 2 columns, 3 kinds), both row layouts"))
     return obs
@@ -268,6 +310,23 @@ def replay(data):
         else:
             bad = back != exp
         return bad, f"ungroup(group({notes}, {kw}), {up}) = {back}; expected {exp}"
+    if data["func"] == "ob_inside_two_holds":
+        up = a[0]; ncol = int(g("ncol"))
+        grouped = [[G.NoteWithTail(beat=Beat(g("h0")), column=0, note_type=NoteType.HOLD_HEAD, tail_beat=Beat(g("t0")))],
+                   [G.NoteWithTail(beat=Beat(g("h1")), column=1, note_type=NoteType.ROLL_HEAD, tail_beat=Beat(g("t1")))],
+                   [Note(beat=Beat(g("nb")), column=ncol, note_type=NoteType.TAP)]]
+        hb, tb = (g("h0"), g("t0")) if ncol == 0 else (g("h1"), g("t1"))
+        inside = hb < g("nb") < tb
+        try:
+            back = list(G.ungroup_notes(grouped, orphaned_notes=G.OrphanedNotes[up]))
+        except G.OrphanedNoteException:
+            back = "raise"
+        if inside and up == "RAISE_EXCEPTION":
+            return back != "raise", f"ungroup_notes({grouped}, {up}) = {back}; the tap splits the hold on its column: expected OrphanedNoteException"
+        if back == "raise":
+            return True, f"ungroup_notes({grouped}, {up}) raised although the tap is not inside its column's hold"
+        ntap = sum(1 for x in back if x.note_type is NoteType.TAP)
+        return ntap != (0 if (inside and up == "DROP_ORPHAN") else 1), f"ungroup_notes({grouped}, {up}) = {back}"
     if data["func"] == "ob_many_holds":
         k, up = a
         grouped = [[G.NoteWithTail(beat=Beat(g(f"h{i}")), column=i, note_type=NoteType.HOLD_HEAD, tail_beat=Beat(g(f"t{i}")))] for i in range(k)]
